@@ -3,6 +3,7 @@ mod c22;
 mod c26;
 mod common;
 mod dev;
+mod suspects;
 
 fn main() {
     let args: Vec<String> = std::env::args().skip(1).collect();
